@@ -1,8 +1,11 @@
 """C17 - incrementally inferred search spaces equal a from-scratch computation.
 
 Up to 3 simulated workers run per-worker scripts of study-level calls (ask, suggest_*,
-tell as COMPLETE/PRUNED/FAIL in an order unrelated to creation, enqueue_trial, die with
-trials left RUNNING) interleaved at call granularity.  `IntersectionSearchSpace` and
+tell as COMPLETE/PRUNED/FAIL in an order unrelated to creation - also of other workers'
+trials -, enqueue_trial, add_trial of an already finished trial, die with trials left
+RUNNING) interleaved at call granularity; in "open_asks" plans ask/enqueue_trial of different
+workers additionally interleave at the seams inside them (that is the only way a WAITING
+trial gets a number below a trial created by ask).  `IntersectionSearchSpace` and
 `_GroupDecomposedSearchSpace` objects (include_pruned False and True) are created once per
 "context" (= one Study object; workers that share a context are threads sharing the Study,
 other contexts are other Study objects / processes on the same storage) and consulted at the
@@ -33,29 +36,30 @@ BUDGET = {"quick": 45, "thorough": 900}
 DEPLOYMENTS = [
     ("mem", 5.0),
     ("jf-sym", 3.0),
-    ("cached", 0.3),
-    ("rdb", 0.15),
-    ("grpc(mem)", 0.4),
+    ("cached", 0.15),
+    ("rdb", 0.1),
+    ("grpc(mem)", 0.8),
 ]
 
 EVIDENCE = {
-    "rule": "one case = one simulated execution of a generated plan (deployment, 1-3 worker scripts of 5-22 study-level calls, 1-3 Study/calculator contexts, scheduler decisions from the sched PRNG stream) with 4 calculator objects per context checked at every consult op and once more at the end. Non-trivial = some calculator was consulted while an unfinished (RUNNING/WAITING) trial had a lower number than an eligible finished one (cursor parked) and consulted again after that trial had finished; distinct = distinct event-order digests (every scheduling decision, every call result and every consultation result is hashed).",
+    "rule": "one case = one simulated execution of a generated plan (deployment, 1-3 worker scripts of 6-24 study-level calls (6-14 on rdb/cached/grpc), 1-3 Study/calculator contexts, scheduler decisions from the sched PRNG stream) with 4 calculator objects per context checked at every consult op and once more at the end. Non-trivial = some calculator was consulted while an unfinished (RUNNING/WAITING) trial had a lower number than an eligible finished one (cursor parked) and consulted again after that trial had finished; distinct = distinct event-order digests (every scheduling decision, every call result and every consultation result is hashed).",
     "assumptions": [
-        "interleaving is at call granularity: one study-level call (ask, suggest_*, tell, enqueue_trial, calculate) at a time; interleavings inside storage calls are C03's subject",
+        "interleaving is at call granularity: one study-level call (ask, suggest_*, tell, enqueue_trial, add_trial, calculate) at a time, except that in open_asks plans (60%) ask/enqueue_trial calls of different workers overlap and interleave at their seams; interleavings inside storage calls are C03's subject",
         "one calculator object is only ever given one Study object (threads of one process share both); other processes have their own Study object and their own calculators",
-        "the oracle reads through the same Study object as the calculator, in the same uninterrupted step (sim.atomic(); for grpc a harness-level mutex around every call, because the server tasks must run)",
+        "the oracle reads through the same Study object as the calculator while no other call is in flight (exclusive gate + sim.atomic(); for grpc the gate only, because the server tasks must run)",
         "samplers are RandomSampler with a fixed seed; parameter values play no role in the property",
         "a distribution kind/log/choices incompatible with an earlier use of the name in the study raises ValueError (documented); the worker then fails that trial",
     ],
     "components": {
-        "real": "optuna.search_space (IntersectionSearchSpace, intersection_search_space, _GroupDecomposedSearchSpace), Study.ask/tell/enqueue_trial/get_trials, Trial.suggest_*, storages (in-memory, journal file, RDB on sqlite3, _CachedStorage, gRPC proxy + servicer over in-memory)",
+        "real": "optuna.search_space (IntersectionSearchSpace, intersection_search_space, _GroupDecomposedSearchSpace), Study.ask/tell/enqueue_trial/add_trial/get_trials, Trial.suggest_*, storages (in-memory, journal file, RDB on sqlite3, _CachedStorage, gRPC proxy + servicer over in-memory)",
         "stub": "OS scheduler, threading locks, clocks, uuid, journal file system (SimFS), gRPC transport and server pool (SimNet)",
     },
 }
 
-# name -> (primary distribution, variants).  Variants marked "bad" are incompatible with the
-# primary one (different kind / log / categorical choices) and make the storage raise
-# ValueError once the name has been used in the study with the other kind.
+# name -> (primary distribution, variants).  Some variants are merely different (other range or
+# step: accepted, and the name drops out of the intersection), some are incompatible with the
+# primary one (different kind / log / categorical choices): the storage raises ValueError once
+# the name has been used in the study with the other kind.
 F = lambda lo, hi, step=None, log=False: {"k": "float", "low": lo, "high": hi, "step": step, "log": log}  # noqa: E731
 I = lambda lo, hi, step=1, log=False: {"k": "int", "low": lo, "high": hi, "step": step, "log": log}  # noqa: E731
 C = lambda *ch: {"k": "cat", "choices": list(ch)}  # noqa: E731
@@ -92,23 +96,33 @@ def gen_plan(seed: int, run: int, tier: str) -> dict:
     same_proc = kind == "mem" or rng.random() < 0.25
     ctxs = [{"proc": "P0" if same_proc else "P%d" % i} for i in range(nctx)]
     pool_names = sorted(POOL)[: rng.choice([2, 3, 4, 5])]
-    p_variant = rng.choice([0.0, 0.1, 0.25, 0.4])
+    p_variant = rng.choice([0.0, 0.05, 0.15, 0.3])
+    p_inc = rng.choice([0.5, 0.8, 0.95])  # chance that a trial suggests a pool name right after ask
+    p_enq = rng.choice([0.03, 0.08, 0.2])
+    p_add = rng.choice([0.0, 0.04, 0.1])
     big = tier != "quick"
     scripts: dict[str, list[dict]] = {n: [] for n in names}
     open_own: dict[str, list[str]] = {n: [] for n in names}
     nslot = {n: 0 for n in names}
     all_slots: list[str] = []
     told: set[str] = set()
-    budget = {n: rng.randint(5, 30 if big else 22) for n in names}
+    slow = kind in ("rdb", "cached") or kind.startswith("grpc(")  # 10-20x the cost per call: shorter scripts
+    budget = {n: rng.randint(6, (34 if big else 24) if not slow else 14) for n in names}
     value = [0]
 
+    def pick_dist(name: str) -> dict:
+        prim, var = POOL[name]
+        return rng.choice(var) if rng.random() < p_variant else prim
+
+    def tell_state() -> str:
+        return common.weighted(rng, [("COMPLETE", 5.0), ("PRUNED", 2.0), ("FAIL", 1.2)])
+
     def tell_op(slot: str) -> dict:
-        st = common.weighted(rng, [("COMPLETE", 5.0), ("PRUNED", 2.0), ("FAIL", 1.5)])
         value[0] += 1
         told.add(slot)
-        return {"op": "tell", "slot": slot, "state": st, "value": float(value[0] % 7)}
+        return {"op": "tell", "slot": slot, "state": tell_state(), "value": float(value[0] % 7)}
 
-    # round-robin-ish generation so that cross-worker references mostly exist at run time
+    # the scripts grow in random alternation so that cross-worker references mostly exist at run time
     live = list(names)
     while live:
         n = rng.choice(live)
@@ -118,7 +132,7 @@ def gen_plan(seed: int, run: int, tier: str) -> dict:
             continue
         mine = [x for x in open_own[n] if x not in told]
         r = rng.random()
-        if r < 0.24 or (not mine and r < 0.5):
+        if r < 0.18 or (not mine and r < 0.45):
             if len(mine) >= 3:
                 continue
             slot = "%s.%d" % (n, nslot[n])
@@ -126,24 +140,29 @@ def gen_plan(seed: int, run: int, tier: str) -> dict:
             s.append({"op": "ask", "slot": slot})
             open_own[n].append(slot)
             all_slots.append(slot)
-        elif r < 0.50:
+            for name in pool_names:
+                if rng.random() < p_inc:
+                    s.append({"op": "suggest", "slot": slot, "name": name, "dist": pick_dist(name)})
+        elif r < 0.28:
             if not mine:
                 continue
-            slot = rng.choice(mine)
             name = rng.choice(pool_names)
-            prim, var = POOL[name]
-            dist = rng.choice(var) if rng.random() < p_variant else prim
-            s.append({"op": "suggest", "slot": slot, "name": name, "dist": dist})
-        elif r < 0.70:
+            s.append({"op": "suggest", "slot": rng.choice(mine), "name": name, "dist": pick_dist(name)})
+        elif r < 0.52:
             cands = mine
             if rng.random() < 0.25:
                 cands = [x for x in all_slots if x not in told]
             if not cands:
                 continue
             s.append(tell_op(rng.choice(cands)))
-        elif r < 0.76:
+        elif r < 0.52 + p_enq:
             ks = rng.sample(pool_names, rng.randint(0, min(2, len(pool_names))))
             s.append({"op": "enqueue", "params": {k: rng.choice(ENQ[k]) for k in sorted(ks)}})
+        elif r < 0.52 + p_enq + p_add:
+            # a trial created already finished (Study.add_trial): lands above any WAITING trial
+            ks = [k for k in pool_names if rng.random() < p_inc]
+            value[0] += 1
+            s.append({"op": "add", "state": tell_state(), "value": float(value[0] % 7), "dists": {k: POOL[k][0] for k in ks}})
         else:
             s.append({"op": "consult"})
     for n in names:
@@ -164,6 +183,7 @@ def gen_plan(seed: int, run: int, tier: str) -> dict:
         "snapshot_interval": rng.choice([3, 100]),
         "pool": rng.choice([1, 2, 4]),
         "sampler_seed": rng.randrange(1000),
+        "open_asks": rng.random() < 0.6,
     }
     return {"check": ID, "seed": seed, "run": run, "cfg": cfg, "ctxs": ctxs, "wctx": wctx, "workers": scripts, "sched": {"seed": rng.getrandbits(48)}}
 
@@ -188,6 +208,8 @@ def _short(o: dict) -> str:
         return "tell %s %s" % (o["slot"], o["state"])
     if k == "enqueue":
         return "enqueue %s" % json.dumps(o["params"], sort_keys=True)
+    if k == "add":
+        return "add_trial %s %s" % (o["state"], sorted(o["dists"]))
     return k
 
 
@@ -239,6 +261,10 @@ def _suggest(trial: Any, name: str, d: dict) -> Any:
     return trial.suggest_categorical(name, d["choices"])
 
 
+def _lowest(d: dict) -> Any:
+    return d["choices"][0] if d["k"] == "cat" else d["low"]
+
+
 def _dshow(space: dict) -> str:
     return "{" + ", ".join("%s: %r" % (k, space[k]) for k in sorted(space)) + "}"
 
@@ -260,20 +286,20 @@ class _Ctx:
 
 def _consult(sim: Any, ctx: _Ctx, who: str, trace: list[str]) -> None:
     """All four calculators of a context against the from-scratch oracles.  Must run with
-    nothing else able to touch the study in between (atomic / api mutex / harness thread)."""
+    no other call in flight (exclusive gate, atomic where possible; or the harness thread)."""
     from optuna.search_space import intersection_search_space
     from optuna.trial import TrialState
 
     study = ctx.study
     ctx.consults += 1
     sim.count("consultations")
+    trials = study.get_trials(deepcopy=False)  # the oracle's own read: same instant as the calculators' reads
     for ip in (False, True):
         calc = ctx.inter[ip]
         try:
             got = calc.calculate(study)
         except Exception as e:  # noqa
             raise _Violation("intersection-exception", "ip=%s %s" % (ip, type(e).__name__), "calculate raised %r" % (e,))
-        trials = study.get_trials(deepcopy=False)
         want = intersection_search_space(trials, include_pruned=ip)
         ok_states = (TrialState.COMPLETE, TrialState.PRUNED) if ip else (TrialState.COMPLETE,)
         elig = [t for t in trials if t.state in ok_states]
@@ -303,6 +329,9 @@ def _consult(sim: Any, ctx: _Ctx, who: str, trace: list[str]) -> None:
         unfinished_below = {t.number for t in trials if not t.state.is_finished() and t.number < hi}
         if unfinished_below:
             sim.count("consult_with_unfinished_below_finished")
+        top = max([t.number for t in trials if t.state != TrialState.WAITING], default=-1)
+        if not ip and any(t.state == TrialState.WAITING and t.number < top for t in trials):
+            sim.count("consult_with_waiting_below_started_trial")
         by_number = {t.number: t for t in trials}
         late = {n for n in ctx.parked[ip] if n in by_number and by_number[n].state in ok_states}
         if late:
@@ -344,21 +373,36 @@ def _run(plan: dict, sim: sched.Sim, ch: sched.Chooser, dep: deploy.Deployment) 
     cfg = plan["cfg"]
     kind = cfg["deployment"]
     prefix = "%s|%s|" % (ID, kind)
-    use_mutex = kind.startswith("grpc(")
-    api_lock = sched.SimLock(sim, False, "api") if use_mutex else None
+    # Gate: calculators are consulted (and suggest/tell run) *exclusively* - no other call in
+    # flight - so that the oracle reads the very state the calculator read.  ask/enqueue may be
+    # "open": several in flight, interleaved at the seams inside them (a trial enqueued between
+    # the two storage calls of another worker's ask() gets a number below a RUNNING trial).
+    # Exclusive sections are additionally atomic, except on grpc where the server tasks must run.
+    can_atomic = not kind.startswith("grpc(")
+    open_calls = ("ask", "enqueue") if cfg.get("open_asks") else ()
+    gate = {"inflight": 0, "excl": False}
 
-    class api:  # one study-level call at a time
+    class api:
+        def __init__(self, shared: bool) -> None:
+            self.shared = shared
+
         def __enter__(self) -> None:
-            if api_lock is not None:
-                api_lock.acquire()
+            if self.shared:
+                sim.block_until(lambda: not gate["excl"], "gate")
+                gate["inflight"] += 1
             else:
-                sim.atomic_depth += 1
+                sim.block_until(lambda: not gate["excl"] and gate["inflight"] == 0, "gate")
+                gate["excl"] = True
+                if can_atomic:
+                    sim.atomic_depth += 1
 
         def __exit__(self, *a: Any) -> None:
-            if api_lock is not None:
-                api_lock.release()
+            if self.shared:
+                gate["inflight"] -= 1
             else:
-                sim.atomic_depth -= 1
+                gate["excl"] = False
+                if can_atomic:
+                    sim.atomic_depth -= 1
 
     # ---- contexts (harness thread, before the simulation starts)
     procs: dict[str, Any] = {}
@@ -395,7 +439,7 @@ def _run(plan: dict, sim: sched.Sim, ch: sched.Chooser, dep: deploy.Deployment) 
                     sim.count("worker_died")
                     sim.note(name, "die")
                     return
-                with api():
+                with api(k in open_calls):
                     if verdict:
                         return
                     if k == "ask":
@@ -403,7 +447,7 @@ def _run(plan: dict, sim: sched.Sim, ch: sched.Chooser, dep: deploy.Deployment) 
                             continue
                         t = study.ask()
                         slots[op["slot"]] = {"trial": t, "number": t.number, "owner": name, "fin": False}
-                        sim.note(name, "ask", t.number, sorted(t.system_attrs.get("fixed_params", {})))
+                        sim.note(name, "ask", t.number)
                         trace.append("%s ask -> #%d" % (name, t.number))
                     elif k == "suggest":
                         s = slots.get(op["slot"])
@@ -439,6 +483,20 @@ def _run(plan: dict, sim: sched.Sim, ch: sched.Chooser, dep: deploy.Deployment) 
                         sim.count("enqueued")
                         sim.note(name, "enqueue", json.dumps(op["params"], sort_keys=True))
                         trace.append("%s %s" % (name, _short(op)))
+                    elif k == "add":
+                        st = TrialState[op["state"]]
+                        dists = {n_: _mkdist(d) for n_, d in sorted(op["dists"].items())}
+                        params = {n_: _lowest(d) for n_, d in sorted(op["dists"].items())}
+                        ft = optuna.trial.create_trial(state=st, value=op.get("value", 0.0) if st == TrialState.COMPLETE else None, params=params, distributions=dists)
+                        try:
+                            study.add_trial(ft)
+                            sim.count("added_finished")
+                            sim.note(name, "add", op["state"], sorted(dists))
+                            trace.append("%s %s" % (name, _short(op)))
+                        except ValueError:
+                            # name already used in the study with an incompatible distribution
+                            sim.count("add_incompatible")
+                            sim.note(name, "add", "ValueError")
                     elif k == "consult":
                         try:
                             _consult(sim, ctx, name, trace)
